@@ -85,6 +85,29 @@ def acceptor(hist, io):
     return None
 
 
+def probe_d17():
+    """Deque on a JSONDisk cache (FanoutCache(disk=JSONDisk).deque)"""
+    import shutil
+    import tempfile
+    import diskcache
+    d = tempfile.mkdtemp(prefix='d17-')
+    try:
+        fc = diskcache.FanoutCache(d, shards=2, disk=diskcache.JSONDisk)
+        dq = fc.deque('x')
+        dq.append(1)
+        dq.append(2)
+        try:
+            got = list(dq)
+        except Exception as e:
+            got = type(e).__name__
+        fc.close()
+        if got != [1, 2]:
+            return 'D17-probe: a Deque from FanoutCache(disk=JSONDisk).deque() holding [1, 2] iterates as %r' % (got,)
+        return None
+    finally:
+        shutil.rmtree(d, ignore_errors=True)
+
+
 def run(tier, seed, rng, known, replay):
     if replay:
         return base.replay_file(replay, 'C11', ('result', 'state'), acceptor)
@@ -92,6 +115,13 @@ def run(tier, seed, rng, known, replay):
     hists = [gen_history(rng, rng.choice([10, 25, 60])) for _ in range(n)]
     r = base.check_histories('C11', hists, ('result', 'state'), acceptor=acceptor, known=known, runner=layers.layer_chunk)
     dist, distinct = base.op_distribution(hists, r['impl_out'])
+    v = probe_d17()
+    if v:
+        k = base.match_known(known, {'cfg': {}}, None, v)
+        if k is not None:
+            r['known'].append(k['what'])
+        else:
+            r['violations'].append({'replay': {'property': 'C11', 'kind': 'probe', 'acceptor': v}, 'found_input': True, 'what': v})
     return {
         'evaluations': sum(len(h['ops']) for h in hists), 'distinct_nontrivial': distinct,
         'rule': 'seeded Deque operation sequences (lengths 10-60) over inline and file-backed values, maxlen in {None,0,1,3,5} and changed on the fly, '
